@@ -1,4 +1,4 @@
 SPECIFICATION Spec
-CONSTANTS MaxN = 12 MaxR = 3 MaxCellsM5 = 400 MlN = 8 MlR = 2 MlLow = 1 Families = {"geo", "ml"} Shrink = 0
+CONSTANTS MaxN = 16 MaxR = 3 MaxCellsM5 = 600 MlN = 8 MlR = 2 MlLow = 1 Families = {"geo", "ml"} Shrink = 0
 INVARIANTS InvM0 InvM1 InvM2 InvM3 InvM4 InvM5 InvF1 InvF2 InvF3 InvF4
 CHECK_DEADLOCK FALSE
